@@ -283,24 +283,9 @@ func checkC05(r *core.Run, p *core.Program) {
 					if !ok {
 						return true
 					}
-					// offset k
-					k := int64(0)
-					mulOK := width == 1
-					idxE := stripParens(ix.Index)
-					if be, ok := idxE.(*ast.BinaryExpr); ok && be.Op == token.ADD {
-						if kk, isC := constInt(info, be.Y); isC {
-							k = kk
-						}
-						idxE = stripParens(be.X)
-					}
-					if be, ok := idxE.(*ast.BinaryExpr); ok && be.Op == token.MUL {
-						if w, isC := constInt(info, be.Y); isC && w == width && induction[objOf(info, be.X)] {
-							mulOK = true
-						}
-					} else if induction[objOf(info, idxE)] && width == 1 {
-						mulOK = true
-					}
-					if !mulOK {
+					// index = i*W + k, possibly through locals (`offset := i * W`) and named constants
+					ind, mul, k, okAff := affineIndex(info, f, ix.Index, 0)
+					if !okAff || !induction[ind] || mul != width {
 						bad = "store index " + exprStr(ix.Index) + " is not i*" + fmt.Sprint(width) + "+k"
 						return true
 					}
@@ -326,36 +311,63 @@ func checkC05(r *core.Run, p *core.Program) {
 			}
 		}
 		if at.Name() == "ArrayTypeBit" {
-			// accum |= 1 << iBit with iBit < bitCount <= 8, stored at data[iDst]
-			okShift := false
-			ast.Inspect(f.Decl.Body, func(n ast.Node) bool {
-				if as, ok := n.(*ast.AssignStmt); ok && as.Tok == token.OR_ASSIGN && len(as.Rhs) == 1 {
-					if be, ok := stripParens(as.Rhs[0]).(*ast.BinaryExpr); ok && be.Op == token.SHL {
-						if k, isC := constInt(info, be.X); isC && k == 1 {
-							okShift = true
-						}
+			// accum |= 1 << iBit with iBit < bitCount <= 8, stored at data[iDst]; the packing of one byte may
+			// live in an unexported helper of the package that returns the byte
+			bodies := []*ast.BlockStmt{f.Decl.Body}
+			inspectCalls(info, f.Decl.Body, func(c *ast.CallExpr, cal *types.Func) {
+				if cal != nil && !cal.Exported() && cal.Pkg() == f.Pkg.Types && recvNamed(cal) == nil {
+					if hd := p.FuncDecl(cal); hd != nil && hd.Body != nil {
+						bodies = append(bodies, hd.Body)
 					}
 				}
-				return true
 			})
-			r.Check("C05.array-index", f.Name()+"|bit packing", f.Decl.Pos(), okShift, "bit i of each byte must be set with 1 << i (low bit first)")
-			// the byte accumulator starts from zero for every output byte: it is (re)initialised in the block that stores it
-			var accObj types.Object
-			ast.Inspect(f.Decl.Body, func(n ast.Node) bool {
-				if as, ok := n.(*ast.AssignStmt); ok && as.Tok == token.OR_ASSIGN && len(as.Lhs) == 1 {
-					accObj = objOf(info, as.Lhs[0])
-				}
-				return true
-			})
+			okShift := false
 			fresh := false
-			if accObj != nil {
-				ast.Inspect(f.Decl.Body, func(n ast.Node) bool {
+			for _, body := range bodies {
+				var accObj types.Object
+				ast.Inspect(body, func(n ast.Node) bool {
+					if as, ok := n.(*ast.AssignStmt); ok && as.Tok == token.OR_ASSIGN && len(as.Rhs) == 1 && len(as.Lhs) == 1 {
+						if be, ok := stripParens(as.Rhs[0]).(*ast.BinaryExpr); ok && be.Op == token.SHL {
+							if k, isC := constInt(info, be.X); isC && k == 1 {
+								okShift = true
+								accObj = objOf(info, as.Lhs[0])
+							}
+						}
+					}
+					return true
+				})
+				if accObj == nil {
+					continue
+				}
+				// the byte accumulator starts from zero for every output byte: it is (re)initialised in the block that
+				// stores (or returns) it
+				ast.Inspect(body, func(n ast.Node) bool {
 					blk, ok := n.(*ast.BlockStmt)
 					if !ok {
 						return true
 					}
 					storeIdx, initIdx := -1, -1
 					for i, st := range blk.List {
+						if ret, ok := st.(*ast.ReturnStmt); ok && len(ret.Results) == 1 && objOf(info, stripConv(info, ret.Results[0])) == accObj {
+							storeIdx = i
+						}
+						if ds, ok := st.(*ast.DeclStmt); ok {
+							if gd, ok := ds.Decl.(*ast.GenDecl); ok {
+								for _, sp := range gd.Specs {
+									if vs, ok := sp.(*ast.ValueSpec); ok {
+										for j, nm := range vs.Names {
+											if info.Defs[nm] == accObj {
+												if j >= len(vs.Values) {
+													initIdx = i // var accum byte: zero value
+												} else if c, ok := constInt(info, stripConv(info, vs.Values[j])); ok && c == 0 {
+													initIdx = i
+												}
+											}
+										}
+									}
+								}
+							}
+						}
 						as, ok := st.(*ast.AssignStmt)
 						if !ok || len(as.Lhs) != 1 || len(as.Rhs) != 1 {
 							continue
@@ -375,6 +387,7 @@ func checkC05(r *core.Run, p *core.Program) {
 					return true
 				})
 			}
+			r.Check("C05.array-index", f.Name()+"|bit packing", f.Decl.Pos(), okShift, "bit i of each byte must be set with 1 << i (low bit first)")
 			r.Check("C05.array-index", f.Name()+"|bit accumulator starts at zero for every byte", f.Decl.Pos(), fresh,
 				"the byte that collects 8 elements is not reset to 0 in the block that stores it: bits set for earlier elements leak into the following bytes (slices longer than 8 elements carry wrong elements)")
 		}
@@ -522,4 +535,59 @@ func checkC05(r *core.Run, p *core.Program) {
 		want := "iface.OnMap(); range($v1,$v2:$v3){def($v4=(*iterator.structField).getValueFromStruct($v5)); if(iterator.shouldIncludeField($v2,$v4,$ctx.Configuration.Iterator.DefaultFieldOmitBehavior)){if(!$v2.IsAnonymous){iface.OnStringlikeArray(ArrayTypeString,$v2.Name)}; callfield:Iterate($v6,$v4)}}; iface.OnEndContainer()"
 		r.Check("C05.struct-fields", "iterator.newStructIterator$1", f.Decl.Pos(), sameEffect(got, []string{want}), "the struct iterator does `"+got+"`; required `"+want+"`")
 	}
+}
+
+// affineIndex reads an index expression as ind*mul+add over one variable: literals and named constants, `a*c`,
+// `c*a`, `a+c`, `c+a`, and locals that are defined once (`offset := i * 4`) are followed.
+func affineIndex(info *types.Info, f *fn, e ast.Expr, depth int) (ind types.Object, mul, add int64, ok bool) {
+	e = stripParens(e)
+	if depth > 4 {
+		return nil, 0, 0, false
+	}
+	if k, isC := constInt(info, e); isC {
+		return nil, 0, k, true
+	}
+	switch x := e.(type) {
+	case *ast.Ident:
+		o := info.ObjectOf(x)
+		if o == nil {
+			return nil, 0, 0, false
+		}
+		if init := singleInit(info, f, o); init != nil {
+			// a loop variable `i := 0` also has a single initialiser but is incremented: singleInit rejects it
+			if i2, m2, a2, ok2 := affineIndex(info, f, init, depth+1); ok2 && i2 != nil {
+				return i2, m2, a2, true
+			}
+		}
+		return o, 1, 0, true
+	case *ast.BinaryExpr:
+		i1, m1, a1, ok1 := affineIndex(info, f, x.X, depth+1)
+		i2, m2, a2, ok2 := affineIndex(info, f, x.Y, depth+1)
+		if !ok1 || !ok2 {
+			return nil, 0, 0, false
+		}
+		switch x.Op {
+		case token.ADD:
+			if i1 != nil && i2 != nil && i1 != i2 {
+				return nil, 0, 0, false
+			}
+			i := i1
+			if i == nil {
+				i = i2
+			}
+			return i, m1 + m2, a1 + a2, true
+		case token.MUL:
+			if i1 != nil && i2 != nil {
+				return nil, 0, 0, false
+			}
+			if i1 != nil {
+				return i1, m1 * a2, a1 * a2, true
+			}
+			if i2 != nil {
+				return i2, m2 * a1, a2 * a1, true
+			}
+			return nil, 0, a1 * a2, true
+		}
+	}
+	return nil, 0, 0, false
 }
